@@ -17,8 +17,8 @@ from vt.gens import commands as GC
 
 ID = 'C12'
 TIERS = {
-    'quick': dict(shards=16, cases=8, watchdog_s=900),
-    'thorough': dict(shards=16, cases=300, watchdog_s=7000),
+    'quick': dict(shards=16, cases=40, watchdog_s=900),
+    'thorough': dict(shards=16, cases=1500, watchdog_s=7000),
 }
 RULE = ('case = generated test (C11 generator) x one single change of the command after generation; each mutation is '
         'one real run of the generated script (~8-20 per command) plus one unchanged run. Non-trivial = every mutation '
